@@ -247,6 +247,12 @@ class EAlias(Engine):
         return {'k': 'cache_clear'}
 
     def _sharing_targets(self):
+        try:
+            return self._sharing_targets_unsafe()
+        except AttributeError:
+            return []        # greybox guidance only: a tree with another private layout simply gets no guidance
+
+    def _sharing_targets_unsafe(self):
         ids = {}
         for i, e in enumerate(self.pool):
             if e.kind in CLASSES:
@@ -693,7 +699,7 @@ class EAlias(Engine):
                     x.clear()
                     x.append('0x0000')
                 setattr(x, name, val)
-            elif op == 'setpos' and hasattr(x, '_pos'):
+            elif op == 'setpos' and kernel.is_stream(x):
                 x.pos = min(abs(pos or 0), len(x))
         st, r = call(go)
         self._after_mutation(tgt)
